@@ -1,10 +1,39 @@
 """Claim table for MANIFEST.json (edited by hand as checks come on line)."""
 _NOTE = ('trusted: pyvc translator + z3/cvc5; assumed (probed, not proved) contracts on NumPy/stdlib/automap; repo callees whose contracts are used '
          'but not proved are listed in the evidence; bounded stand-ins are exhaustive only within their stated scope and are never counted as proved')
+_T = 'contract-based deductive verification (AST->VC, z3/cvc5) + bounded run-time contract stand-in'
+_TB = 'bounded run-time contract checking of the real package (stand-in; no deductive obligation reaches this property yet)'
+
+
+def _p(text):
+    return dict(category='proof', text=text, note=_NOTE, technique=_T)
+
+
+def _o(text):
+    return dict(category='other', text=text, note=_NOTE, technique=_T)
+
+
+def _e(text):
+    return dict(category='exploration', text=text, note=_NOTE, technique=_TB)
+
+
 CLAIMS = {
-    'C03': dict(category='proof',
-        text='Deductive: contracts on the real key->block-slice translation (TypeBlocks._cols_to_slice, _indices_to_contiguous_pairs with loop invariant and yield contract, util.slice_to_ascending_slice) are discharged for all inputs and all iterations by z3 from VCs generated from the current source. Layout transparency of whole operations is outside the verifier and is covered by a bounded stand-in (all block layouts of <=4 columns x 49 operations), reported as bounded.',
-        note=_NOTE, technique='contract-based deductive verification (AST->VC, z3/cvc5) + bounded run-time contract stand-in'),
+    'C01': _o('Deductive: immutable_filter, TypeBlocks.append/extend (Frozen invariant) proved; G1/G2 site obligations generated for every array-field write, raw TypeBlocks constructor call, frozen-return contract and in-place ndarray write in 13 core modules and discharged by a flow-sensitive type-state pass (some sites undecided: listed). "Every public method" is covered by a bounded snapshot stand-in.'),
+    'C02': _e('Bounded stand-in: index bijection contract over 12 label families x construction/derivation routes x grow-only histories (flat, datetime, auto-integer, hierarchical). slice_to_inclusive_slice (label-slice stop inclusion) is proved deductively.'),
+    'C03': _p('Deductive: contracts on the real key->block-slice translation (TypeBlocks._cols_to_slice, _indices_to_contiguous_pairs with loop invariant and yield contract, util.slice_to_ascending_slice, TypeBlocks.append directory invariant) are discharged for all inputs and all iterations. Layout transparency of whole operations is covered by a bounded stand-in (all block layouts of <=4 columns x 49 operations), reported as bounded.'),
+    'C05': _e('Bounded stand-in: list-of-tuples reference for ragged trees depth 2-4, 16 construction routes, grow-only histories, every per-level selector combination.'),
+    'C06': _e('Bounded stand-in: set algebra of indices and dict-reference label alignment of binary operators / reindex over all small label-set relations and block layouts.'),
+    'C07': _p('Deductive: util.resolve_dtype proved against the decision table taken from the property (strings, Booleans, dates and numbers never resolve into one another; object absorbs; same-class pairs defer to np.result_type, assumed). Cell-level preservation across every merging operation is covered by a bounded stand-in.'),
+    'C08': _p('Deductive: slice_to_ascending_slice and key_to_ascending_key proved (result is ascending and addresses exactly the positions of the user key, for every slice incl. negative start/stop/step, all sizes); get_block_match yield contract proved (draws exactly `width` leading columns from the stack, remainder pushed back, rest untouched). G2 write-only-to-fresh sites cover "leaves the original as it was". Whole update interfaces are covered by a bounded reference-model stand-in.'),
+    'C09': _p('Deductive: TypeBlocks.append / extend, FrameGO.__setitem__ and FrameGO.extend proved append-only, all-or-nothing (raise => state == old(state)) and lock-step (labels and data widths equal) for all inputs, relative to assumed IndexGO contracts. Histories and non-sharing are covered by a bounded stand-in.'),
+    'C10': _p('Deductive: TypeBlocks.equals proved equal to the content-equivalence predicate of the property over ghost cell contents (cell-wise ==, both-missing only under skipna, dtype option), for all shapes and block structures; symmetry follows from the predicate. Container-level equals / HE hash contract are covered by a bounded stand-in.'),
+    'C11': _e('Bounded stand-in: dict-of-cells reference for from_concat / from_concat_items / from_overlay on Series and Frames (0..3 inputs, both axes, union/intersection, all layouts).'),
+    'C12': _e('Bounded stand-in: sorted() reference (stable, multi-key, hierarchical, descending = exact reverse) over all orders of small label/value sets and all layouts.'),
+    'C14': _p('Deductive: util.slices_from_targets yield contract proved (each yielded run is non-empty, inside the axis, adjacent to its own anchor, at most `limit` long, never covers a non-missing anchor position, carries that anchor\'s value) for all inputs. Per-cell behaviour of isna/dropna/fillna*/count is covered by an exhaustive bounded stand-in (every missing pattern up to 3x3 / 2x4, all layouts).'),
+    'C16': _e('Bounded stand-in only (CSV/TSV text semantics are outside the verifier): inverse-pair contract for delimited / pairs / records / pickle round trips.'),
+    'C17': _p('Deductive: Bus._store_reader yield contract proved (frames yielded in label order, each read with that label\'s config, for every max_persist batching) relative to assumed Store contracts. Laziness, LRU bound/order, store faithfulness and stale-file detection are covered by a bounded history stand-in.'),
+    'C18': _e('Bounded stand-in: pooled vs sequential application for every completion order of <=4 delayed tasks, worker counts, chunk sizes; Batch and zip store workers.'),
+    'C19': _e('Bounded stand-in: Quilt vs concatenated Frame, Batch vs per-Frame application.'),
 }
-NOT_APPLICABLE = {pid: 'check under construction in this session (contracts and stand-ins are being written); see DESIGN.md §3'
-                  for pid in ['C01', 'C02', 'C04', 'C05', 'C06', 'C07', 'C08', 'C09', 'C10', 'C11', 'C12', 'C13', 'C14', 'C15', 'C16', 'C17', 'C18', 'C19', 'C20']}
+NOT_APPLICABLE = {pid: 'check under construction in this session (bounded stand-in being written); see DESIGN.md §3'
+                  for pid in ['C04', 'C13', 'C15', 'C20']}
